@@ -92,7 +92,7 @@ def uniform_swing(h):
     # "rounded, then floored" (statement) vs "floored, then rounded" (code): equal because the partial count is a
     # whole number -- lemma over an arbitrary real X and integer r, instantiated at X = (1+m)*last, r = results
     X = z3.Real("X_any")
-    h.lemma("lemma.round_and_floor_commute", z3.ToReal(round_half_even_t(z3.If(X >= t.res, X, t.res))) == z3.If(z3.ToReal(round_half_even_t(X)) >= t.res, z3.ToReal(round_half_even_t(X)), t.res))
+    h.lemma("lemma.round_and_floor_commute", round_half_even_t(z3.If(X >= t.res, X, z3.ToReal(t.res))) == z3.If(round_half_even_t(X) >= t.res, round_half_even_t(X), t.res))
 
 
 def popcorr_contract(interp, self, conformalization_data, scores, correction_quantile, estimand):
